@@ -46,10 +46,30 @@ theorem skel_CloseConnection :
       ["connLock.Lock", "delete", "connLock.Unlock", "Stream.Close", "RawConn.Close", "RemoveControlConnection",
        "RemoveTunnelConnection"] := by decide
 theorem skel_RemoveControlConnection :
-    Skel.RemoveControlConnection = ["clientRegistry.GetByConnID", "clientRegistry.Remove"] := by decide
+    Skel.RemoveControlConnection =
+      ["clientRegistry.GetByConnID", "clientRegistry.Remove", "cloudControl.DisconnectClientIfMatch"] := by decide
 theorem skel_cleanupStaleConnections :
-    Skel.cleanupStaleConnections = ["clientRegistry.CleanupStale", "CloseConnection"] := by decide
-/-- (the second `Unlock` is the refusal branch of the cap re-check added by the C17 repair of `CreateConnection`) -/
+    Skel.cleanupStaleConnections =
+      ["clientRegistry.CleanupStale", "cloudControl.DisconnectClientIfMatch", "CloseConnection"] := by decide
+/-- adapter.go: accept, read loop, deferred teardown (`settle` in the model) -/
+theorem skel_adapterHandleConnection :
+    Skel.adapterHandleConnection = ["cleanupConnection", "initializeConnection", "connectionReadLoop"] := by decide
+theorem skel_adapterCleanupConnection : Skel.adapterCleanupConnection = ["session.CloseConnection", "closer.Close"] := by
+  decide
+theorem skel_adapterInitializeConnection : Skel.adapterInitializeConnection = ["session.AcceptConnection"] := by decide
+theorem skel_adapterReadLoop :
+    Skel.adapterReadLoop = ["checkAndHandleStreamMode", "readPacketWithTimeout", "handlePacketAndCheckModeSwitch"] := by
+  decide
+theorem skel_adapterHandlePacket : Skel.adapterHandlePacket = ["session.HandlePacket"] := by decide
+theorem guard_adapterCleanupConnection :
+    Guard.adapterCleanupConnection =
+      ["if state.streamConn != nil", "if state.streamConn != nil && b.session != nil", "if state.shouldCloseConn",
+       "if closer, ok := conn.(interface{ Close() error }); ok"] := by decide
+/-- the registry entry is removed whatever the cloud control answers: no early return between the two -/
+theorem guard_RemoveControlConnection :
+    Guard.RemoveControlConnection =
+      ["if conn != nil", "if authenticated && clientID > 0 && s.cloudControl != nil", "if err != nil", "if disconnected"] := by
+  decide
 theorem skel_CreateConnection : Skel.CreateConnection = ["connLock.Lock", "connLock.Unlock", "connLock.Unlock"] := by decide
 theorem skel_handleHeartbeat : Skel.handleHeartbeat = ["clientRegistry.GetByConnID", "UpdateActivity"] := by decide
 theorem skel_TunnelRemove : Skel.TunnelRemove = ["mu.Lock", "mu.Unlock", "delete", "delete"] := by decide
@@ -182,6 +202,68 @@ example :
     holdsF 1 1 0 [(.accept 0, false), (.hsAuth 0 1 true, false), (.hsFin 0, false), (.close 0, true)] true
       { cl := [some ⟨0, 1, true, true⟩], cn := [⟨some (1, true), false, false, true⟩], la := [0],
         count := 1, total := 0, control := 1, tunnel := 0, active := 1 } = false := by decide
+
+/-! ## Histories driven through the adapter's read loop -/
+
+/-- **All histories through the read loops (adapter.go `handleConnection` / `cleanupConnection`),
+with any placement of cloud-control faults.**  `runAdp` lets, after every operation, every read loop
+end whose transport is closed or broken (unless it is inside a handshake), which runs the
+adapter's teardown.  For every such history the observation satisfies `holdsAdp`: all clauses of
+`holds`, and — without any bookkeeping of who closed what — every opened connection whose
+transport is closed (eviction by kick / re-login / stale sweep / limit, CloseConnection) or broken
+by the peer is completely gone: no lookup by client id or connection id returns it,
+SessionManager and the tunnel registry no longer track it, ListAuthenticated does not list it and
+every counter is back to the number of connections the lookups still return. -/
+theorem C07_adapter_main (n m cap : Nat) (fops : List FOp) :
+    holdsAdp n m cap fops (obsOf (runAdp .repaired (init n cap) fops) m) = true := by
+  have hn : (runAdp .repaired (init n cap) fops).n = n := runAdp_n fops (init n cap)
+  have hinv : Inv (runAdp .repaired (init n cap) fops) := inv_runAdp fops (inv_init n cap)
+  have hpend := runAdp_pend fops (init n cap) (fun _ => false) (by intro c hc; simp [init] at hc)
+  have h := holdsWith_of_inv hinv m (pendSyn (fops.map Prod.fst))
+    (fun c => decide (c < n) && (((obsOf (runAdp .repaired (init n cap) fops) m).connAt c).closed ||
+                (runAdp .repaired (init n cap) fops).broken c) &&
+              (runAdp .repaired (init n cap) fops).opened c && !pendSyn (fops.map Prod.fst) c)
+    (runAdp .repaired (init n cap) fops).evicted hpend ?_ (fun _ h => h)
+  · rw [hn] at h
+    simpa [holdsAdp] using h
+  · intro c hc
+    simp only [Bool.and_eq_true, Bool.or_eq_true, decide_eq_true_eq, Bool.not_eq_true'] at hc
+    obtain ⟨⟨⟨hlt, hcb⟩, hop⟩, hnp⟩ := hc
+    by_cases hne : fops = []
+    · subst hne
+      simp [runAdp, init] at hop
+    · have hp : (runAdp .repaired (init n cap) fops).pend c = none := by
+        cases hpc : (runAdp .repaired (init n cap) fops).pend c with
+        | none => rfl
+        | some p =>
+          have := hpend c (by rw [hpc]; simp)
+          simp only [pendSyn] at hnp
+          rw [hnp] at this
+          cases this
+      apply runAdp_settled fops hne (init n cap) c
+      rw [connAt_obsOf _ m c (by rw [hn]; exact hlt)] at hcb
+      simp only [dead, hn, hlt, decide_true, Bool.true_and, Bool.and_eq_true, Bool.or_eq_true, hop, hp,
+        Option.isNone_none, and_true]
+      simpa [connRes] using hcb
+
+/-- non-vacuity: duplicate login through the read loops — the evicted connection's loop ends and its
+teardown runs by itself: it is gone from SessionManager too, total count 1 … -/
+example :
+    obsOf (runAdp .repaired (init 2 0)
+      [(.accept 0, false), (.accept 1, false), (.hsAuth 0 1 true, false), (.hsFin 0, false),
+       (.hsAuth 1 1 true, false), (.hsFin 1, false)]) 1
+    = { cl := [some ⟨1, 1, true, true⟩],
+        cn := [⟨none, false, false, true⟩, ⟨some (1, true), true, false, false⟩], la := [1],
+        count := 1, total := 1, control := 1, tunnel := 0, active := 1 } := by decide
+
+/-- … and `holdsAdp` rejects the observation in which the evicted connection is still tracked. -/
+example :
+    holdsAdp 2 1 0
+      [(.accept 0, false), (.accept 1, false), (.hsAuth 0 1 true, false), (.hsFin 0, false),
+       (.hsAuth 1 1 true, false), (.hsFin 1, false)]
+      { cl := [some ⟨1, 1, true, true⟩],
+        cn := [⟨none, true, false, true⟩, ⟨some (1, true), true, false, false⟩], la := [1],
+        count := 1, total := 2, control := 1, tunnel := 0, active := 1 } = false := by decide
 
 /-! ## Non-vacuity and recorded findings -/
 
